@@ -1,7 +1,9 @@
 /-
   MongoModel.Update — what `Collection._apply_update` does to ONE document
-  (mongomock/collection.py: the operator loop 700-930, `_update_document_single_field`,
-  `_get_subdocument`, `_expand_dots`, `_discard_operators`, the `_updaters`), followed line by
+  (mongomock/collection.py: the operator loop, `_update_document_single_field`,
+  `_get_subdocument`, `_each_of_add_to_set`, `_validate_update_operators` (`validateOps`: the
+  operator names, checked by the callers in Store / FindModify before any document is looked
+  for), `_discard_operators` then `_expand_dots` (`upsertSeed`), the `_updaters`), followed line by
   line, quirks included.  Python mutates the stored document in place; the model is functional
   (every function returns the new container).  Since the `fix:` commit "a failed single-document
   update restores the document" an exception leaves no partial state, so an error simply aborts.
@@ -279,8 +281,17 @@ def valuesToAdd (existing : List Val) (values : List Val) : List Val :=
 def addEach (target each : List Val) : List Val :=
   target ++ valuesToAdd target each
 
+/-- `'$each' in value` with another key next to it (`_each_of_add_to_set` raises WriteError:
+    unlike `$push`, `$addToSet` takes no clause next to `$each`) -/
+def eachWithOtherClause (value : Val) : Bool :=
+  match value with
+  | .doc vs => (dget "$each" vs).isSome && vs.any (fun kv => kv.1 != "$each")
+  | _ => false
+
 /-- the `$addToSet` edit of an existing target value `cur` (a list in the normal case) -/
 def addToSetValue (cur : Val) (value : Val) : R Val :=
+  -- `_each_of_add_to_set(value)` is evaluated first: any clause next to `$each` is refused
+  if eachWithOtherClause value then .error .writeErr else
   match cur with
   | .arr xs =>
     (match value with
@@ -323,6 +334,14 @@ def addToSetField (spec : Val) (d : Val) (field : String) (value : Val) : R Val 
           let r ← addToSetValue cur value
           pure (.doc (dset last r ps))
         | .arr _ => unmodelled
+        | .str p =>
+          -- `last in subdocument` is a substring test: when it fails the value to add is computed
+          -- from an empty list (the clause next to `$each` is refused here) before the assignment
+          -- `subdocument[last] = …` raises TypeError; when it holds, `subdocument[last]` raises
+          if isInfixChars last.toList p.toList then .error .typeErr
+          else do
+            let _ ← addToSetValue (.arr []) value
+            .error .typeErr
         | _ => .error .typeErr) true parts true spec d
 
 /-- remove the first element `==` to `o` (`list.remove`) -/
@@ -600,38 +619,88 @@ def applyUpdate (spec : Val) (document : Val) (now : Val) (wasInsert : Bool) (ex
   | .doc fs => applyOps spec now wasInsert fs fs true existing
   | _ => .error .typeErr
 
-/-! ### upsert seed: `_expand_dots`, `_discard_operators` -/
+/-! ### `_validate_update_operators`: the operators of an update, checked before any document is
+    looked for -/
 
-/-- `_expand_dots`: one key.  `pre` = the dotted prefix walked so far; when an intermediate is
-    not a sub-document the code raises WriteError through `paths[prefix]` — a KeyError instead
-    when that prefix was never recorded (it was reached through a sub-document given whole) -/
-def expandOne (paths : List String) (v : Val) : List String → List String → Fields → R Fields
+/-- the operators `_apply_update` implements itself (`_OTHER_UPDATE_OPERATORS`) -/
+def otherUpdateOperators : List String :=
+  ["$rename", "$setOnInsert", "$currentDate", "$addToSet", "$pull", "$pullAll", "$push"]
+
+/-- `k in _updaters or k in _OTHER_UPDATE_OPERATORS` -/
+def knownOperator (k : String) : Bool := (updaterOf k).isSome || otherUpdateOperators.contains k
+
+/-- the walk of `_validate_update_operators` from position `index` (`atStart` = `index == 0`) on:
+    a known operator is passed; another key is 'Invalid modifier' behind the first position, at the
+    first position 'field names cannot start with $' when some key of the whole document starts
+    with `$`, and otherwise marks a replacement document (the walk stops) -/
+def validateOpsFrom (whole : Fields) : Fields → Bool → R Unit
+  | [], _ => .ok ()
+  | (k, _) :: rest, atStart =>
+    if knownOperator k then validateOpsFrom whole rest false
+    else if !atStart then .error .valueErr
+    else if whole.any (fun kv => kv.1.startsWith "$") then .error .valueErr
+    else .ok ()
+
+/-- `_validate_update_operators(document)`: called by `_apply_update` after the pre-5.0 "empty
+    operator" check and before the filter is evaluated for the first time, and by
+    `_find_and_modify` before the target is looked up -/
+def validateOps (document : Fields) : R Unit := validateOpsFrom document document true
+
+/-- the same on an update given as a value (`_find_and_modify`: `if update:
+    _validate_update_operators(update)`); the callers have refused non-mappings before -/
+def validateOpsVal (u : Val) : R Unit :=
+  match u with
+  | .doc ufs => validateOps ufs
+  | _ => .ok ()
+
+/-! ### upsert seed: `_discard_operators`, then `_expand_dots` -/
+
+/-- `_expand_dots`: one key.  `given` = the keys stated so far (`paths[k] == k`), `inter` = the
+    proper prefixes walked so far (`paths[prefix] = k'`), `pre` = the dotted prefix walked in this
+    key.  A path that passes through a key that was itself given as an equality, or whose
+    intermediate is not a sub-document, is the WriteError 'cannot infer query fields to set' (a
+    KeyError from `paths[subkey]` if that prefix had never been recorded). -/
+def expandOne (given inter : List String) (v : Val) : List String → List String → Fields → R Fields
   | [], _, acc => .ok acc
   | [last], _, acc => .ok (dset last v acc)
   | part :: rest, pre, acc =>
     match dget part acc with
-    | none => do
-      let sub ← expandOne paths v rest (pre ++ [part]) []
-      pure (dset part (.doc sub) acc)
-    | some (.doc sub) => do
-      let sub' ← expandOne paths v rest (pre ++ [part]) sub
-      pure (dset part (.doc sub') acc)
+    | none =>
+      -- `sub_expanded[key_part] = {}`, then the same test (it cannot fire here: a stated key has
+      -- put a value at its path)
+      if given.contains (joinDots (pre ++ [part])) then .error .writeErr
+      else do
+        let sub ← expandOne given inter v rest (pre ++ [part]) []
+        pure (dset part (.doc sub) acc)
+    | some (.doc sub) =>
+      if given.contains (joinDots (pre ++ [part])) then .error .writeErr
+      else do
+        let sub' ← expandOne given inter v rest (pre ++ [part]) sub
+        pure (dset part (.doc sub') acc)
     | some _ =>
-      if paths.contains (joinDots (pre ++ [part])) then .error .writeErr else .error .keyErr
+      if given.contains (joinDots (pre ++ [part])) || inter.contains (joinDots (pre ++ [part])) then
+        .error .writeErr
+      else .error .keyErr
 
-/-- `_expand_dots(doc)`; the duplicate-path check `k in paths` can only fire for prefixes
-    recorded by an earlier, longer key -/
+/-- the proper dotted prefixes of a key: `a.b.c` ↦ `a`, `a.b` -/
+def properPrefixes (parts : List String) : List String :=
+  (List.range (parts.length - 1)).map (fun i => joinDots (parts.take (i + 1)))
+
+/-- `_expand_dots(doc)`: `k in paths` fires for a key stated twice and for a key that is a prefix
+    of an earlier one; the test inside the walk for a key that runs through an earlier one.  (The
+    state `paths` of the code is kept as two lists: `paths[key] == key` holds exactly for the
+    keys stated so far — a stated key is never re-recorded as the prefix of a later one, the
+    walk raises there.) -/
 def expandDots (doc : Fields) : R Fields :=
-  let step (st : Fields × List String) (kv : String × Val) : R (Fields × List String) :=
-    if st.2.contains kv.1 then .error .writeErr
+  let step (st : Fields × List String × List String) (kv : String × Val) :
+      R (Fields × List String × List String) :=
+    let (acc, given, inter) := st
+    if given.contains kv.1 || inter.contains kv.1 then .error .writeErr
     else
       let parts := splitDots kv.1
-      -- `paths[k] = k` first; a prefix of `k` is recorded only after its intermediate passed
-      -- the test, so the test of a prefix sees the prefixes of earlier keys and `k` itself
-      let prefixes := (List.range parts.length).map (fun i => joinDots (parts.take (i + 1)))
-      (expandOne (st.2 ++ [kv.1]) kv.2 parts [] st.1).map
-        (fun acc' => (acc', st.2 ++ prefixes))
-  (doc.foldlM step ([], [])).map (·.1)
+      (expandOne (given ++ [kv.1]) inter kv.2 parts [] acc).map
+        (fun acc' => (acc', given ++ [kv.1], inter ++ properPrefixes parts))
+  (doc.foldlM step ([], [], [])).map (·.1)
 
 mutual
   /-- `_discard_operators(doc)`: `(new_doc, discarded)` -/
@@ -649,5 +718,14 @@ mutual
         if discarded then discardFields rest acc else discardFields rest (dset k nv acc)
   termination_by structural x _ => x
 end
+
+/-- the document an upsert starts from: `dict(spec, _id=_id)`, `_discard_operators` (only the
+    equality conditions stay: operator conditions and `$`-keys are dropped, `{$eq: v}` gives `v`),
+    then `_expand_dots` on what is left (dotted paths become sub-documents; an equality below
+    another one is a conflict) -/
+def upsertSeed (ss : Fields) (idv : Val) : R Val :=
+  match (discardOps (.doc (dset "_id" idv ss))).1 with
+  | .doc eqs => (expandDots eqs).map Val.doc
+  | _ => .error .attrErr        -- a top-level `$eq`: `_expand_dots` of a non-mapping
 
 end MongoModel
